@@ -103,7 +103,7 @@ def cap_runouts(state):
 class World:
     def __init__(self, ch, ctx, cfg, monitors=(), *, profile=None, dealer=None, run_key='k',
                  autos_mask=None, muck_num=1, runout_prefs=(None, 1, 2, 2, 3), partial_show=True,
-                 explicit_index_num=1, commentary_num=0, adopt=None, free_showdown_num=1):
+                 explicit_index_num=1, commentary_num=0, adopt=None, free_showdown_num=1, force_show=False):
         self.ch = ch
         self.ctx = ctx
         self.cfg = cfg
@@ -127,6 +127,7 @@ class World:
         self.autos_mask = cfg['autos'] if autos_mask is None else autos_mask
         self.commentary_num = commentary_num
         self.free_showdown_num = free_showdown_num
+        self.force_show = force_show
         if adopt is not None:
             self.state = adopt
             self.constructing = False
@@ -366,6 +367,9 @@ class World:
                     out.append(pool.pop(ch.pick('show.reveal', len(pool))))
             self.ctx.count('revealed_unknown_cards')
             self.apply('show_or_muck_hole_cards', cards_str(out), *extra)
+            return
+        if self.force_show:
+            self.apply('show_or_muck_hole_cards', True, *extra)
             return
         # 0: engine decides, 1: show all, 2: voluntary muck, 3: explicit own cards, 4: partial show
         w = [8, 3, 0, 2, 0]
